@@ -114,6 +114,27 @@ func TestVPReplay(t *testing.T) {{
     return m.group(1), m.group(2).strip()
 
 
+NON_NATIVE = {"crash", "crash-partial", "crash-tail", "sched", "select", "preempt", "maporder"}
+
+
+def engine_replay(outdir, dirpath, entry, replay_path, want_id, want_kind):
+    """Re-run the entry inside the interpreter with all inputs fixed to the model and the recorded crash /
+    scheduler / map-order decisions forced (these cannot be forced on the natively compiled code)."""
+    binp = os.path.join(VERIF, "bin", "symgo")
+    res = os.path.join(outdir, f"engine_replay_{entry}.json")
+    cmd = [binp, "run", "-repo", REPO, "-harness", os.path.join(VERIF, "harness"), "-vp", os.path.join(VERIF, "vp", "vp.go"),
+           "-entries", f"{dirpath}:{entry}", "-out", res, "-replay", replay_path, "-timeout", "300s"]
+    r = subprocess.run(cmd, env=ENV, text=True, capture_output=True)
+    if r.returncode != 0 or not os.path.exists(res):
+        return False
+    run = json.load(open(res))
+    for x in run["results"]:
+        for v in (x.get("violations") or []):
+            if v["id"] == want_id or (want_kind == "panic" and v["kind"] == "panic"):
+                return True
+    return False
+
+
 def realise(model, hashes):
     """Re-target a solver model at the real hash functions: the model assigns arbitrary values to the
     outputs of the ideal hash; wherever a group of symbolic input bytes carries such an output value it is
@@ -219,6 +240,7 @@ def run_check(prop, tier, seed):
     known = [k for k in load_known() if k.get("property") == prop and k.get("status") == "open"]
     confirmed, inconclusive, replays = [], [], 0
     known_lines = []
+    seen_v = set()
     for res in run["results"]:
         d, name = res["harness"].split(":")
         for aid, n in (res.get("known_hits") or {}).items():
@@ -226,14 +248,24 @@ def run_check(prop, tier, seed):
                 if k["harness"] == name and k["assert_id"] == aid:
                     known_lines.append(f"KNOWN-FINDING: property={prop} {k['desc']} (harness {name}, assertion {aid}, {n} path(s))")
         for v in (res.get("violations") or []):
+            if (name, v["id"]) in seen_v:
+                continue
+            seen_v.add((name, v["id"]))
             rp = os.path.join(outdir, f"{name}.{hashlib.sha1(v['id'].encode()).hexdigest()[:8]}.replay.json")
             model = realise(v.get("model") or {}, (v.get("extra") or {}).get("hashes"))
             json.dump({"property": prop, "dir": d, "entry": name, "assert_id": v["id"], "kind": v["kind"], "msg": v.get("msg", ""),
-                       "model": model, "solver_model": v.get("model") or {}, "choices": v.get("choices") or [], "decisions": v.get("decisions", "")},
+                       "model": model, "solver_model": v.get("model") or {}, "choices": v.get("choices") or [], "decisions": v.get("decisions", ""),
+                       "stack": v.get("stack") or []},
                       open(rp, "w"), indent=1)
             status, detail = native_replay(outdir, d, name, rp)
             replays += 1
             ok = (status == "violation" and detail == "id=" + v["id"]) or (v["kind"] == "panic" and status == "panic")
+            how = "native"
+            if not ok and any(d["kind"] in NON_NATIVE for d in (v.get("stack") or [])):
+                # crash points / scheduling cannot be forced natively: replay concretely in the interpreter
+                ok = engine_replay(outdir, d, name, rp, v["id"], v["kind"])
+                how = "interpreter (crash/scheduler decisions forced; native run had " + status + ")"
+            v["replayed"] = how
             if ok:
                 confirmed.append((name, v, rp))
             else:
@@ -250,7 +282,7 @@ def run_check(prop, tier, seed):
     if confirmed:
         for name, v, rp in confirmed:
             print(f"VIOLATION property={prop} replay={rp}")
-            print(f"  harness={name} assertion={v['id']} {v.get('msg','')[:300]} model={json.dumps(v.get('model'))[:600]}")
+            print(f"  harness={name} assertion={v['id']} replayed={v.get('replayed')} {v.get('msg','')[:300]} model={json.dumps(v.get('model'))[:600]}")
         return 1
     print(f"OK property={prop} tier={tier} harnesses={len(run['results'])} paths={sum(r['paths'] for r in run['results'])} "
           f"asserts_proved={sum(r['asserts_proved'] for r in run['results'])} undischarged={len(inconclusive)} wall={time.time()-t0:.1f}s")
